@@ -713,7 +713,7 @@ macro_rules! on_q {
     };
 }
 
-impl<H: BuildHasher + Default + Clone> Ex<H> {
+impl<H: BuildHasher + Default + Clone + std::fmt::Debug> Ex<H> {
     pub fn new(nregs: usize, odd: bool) -> Ex<H> {
         Ex {
             regs: (0..nregs).map(|_| Reg::Empty).collect(),
@@ -1246,6 +1246,18 @@ impl<H: BuildHasher + Default + Clone> Ex<H> {
                     _ => invalid!(out),
                 }
                 out.push_str("unit");
+            }
+            "debug" => {
+                // fmt::Debug is public API too: format the queue, report how many
+                // entries were printed (one `Index(..)` key per heap slot)
+                let r: usize = num(tok(t, 1));
+                let txt = match self.regs.get(r) {
+                    Some(Reg::Pq(q)) => format!("{:?}", q),
+                    Some(Reg::Dpq(q)) => format!("{:?}", q),
+                    _ => invalid!(out),
+                };
+                out.push_str("nat ");
+                p_u64(out, txt.matches("Index(").count() as u64);
             }
             "eq" => {
                 let (a, b) = (num::<usize>(tok(t, 1)), num::<usize>(tok(t, 2)));
